@@ -30,8 +30,8 @@ def main(ctx):
         ff = ex.submit(run, 'mgr-finecreate', fine, workers=6)
         fk = ex.submit(run, 'mgr-walks', walks, emit=True, simulate=2000 if thorough else 300,
                        depth=30, seed=ctx.seed)
-        rc, data, log = sandbox.run_driver('harness.mgr_main', [ctx.tier, ctx.seed],
-                                           timeout=900 if thorough else 400)
+        rc, data, log = sandbox.run_driver_patient('manager', 'harness.mgr_main', [ctx.tier, ctx.seed],
+                                           timeout=900 if thorough else 240)
         g = recipe.account(ctx, 'mgr-small', 'Mgr', small, fs.result(), emit=True)
         ctx.sample({'unit': 'mgr-small', 'states': len(g.state), 'edges': g.n_edges})
         recipe.conform(ctx, 'mgr-small', g, MgrAdapter, mon_module='MgrMonitor',
